@@ -96,7 +96,10 @@ def _eval_scan(case):
         base = proj.path(root)
         pats = [p.replace("@BASE@", base) for p in case["pats"]]
         if case["regex"]:
-            ex = ("R", tuple(_glob_to_regex(p) for p in pats))
+            # each regex is applied on its own: a global inline flag at the start of one of them ((?s) does not change
+            # what matches a path without newlines) concerns that pattern only, wherever it stands in the tuple
+            flagged = case.get("flagged")
+            ex = ("R", tuple(("(?s)" if flagged is not None and flagged % len(pats) == i else "") + _glob_to_regex(p) for i, p in enumerate(pats)))
         else:
             ex = ("G", tuple(pats))
         none = ("G", ("*__never_matches__",))
@@ -203,7 +206,8 @@ def run(ctx: Ctx):
             sc.fill_sources(rng, tree, externals=False)
             dirs = sorted(p for p, v in tree.items() if v is None)
             cases.append({"tree": tree, "root": "proj", "mp": rng.choice(dirs) if rng.random() < 0.3 else "proj",
-                          "pats": exclusion_for(rng, tree), "regex": rng.random() < 0.4, "with_externals": rng.random() < 0.5})
+                          "pats": exclusion_for(rng, tree), "regex": rng.random() < 0.4, "with_externals": rng.random() < 0.5,
+                          "flagged": rng.randrange(4) if rng.random() < 0.3 else None})
         judge_scans(ctx, s, cases)
         done += len(cases)
     s.finish()
